@@ -18,7 +18,7 @@ from vlib import fmt_list, parse_list
 CU_MAX = [0xFF, 0xFFFF, 0xFFFFFFFF, 0xFFFFFFFF]
 WS = [32, 9, 10, 13]
 TABLES = (("Tables_json", "gentables_json.cpp"), ("Tables_digit", "gentables_digit.cpp"))
-PATCHES = "D2 D11 D15 D16 D61 D62 D63 (json) + D28 D43 D44 D45 D46 (digit)"
+PATCHES = "D2 D11 D15 D16 D61 D62 D63 D81 D92 (json) + D28 D43 D44 D45 D46 (digit)"
 
 
 def to_utf(w, cp):
@@ -320,6 +320,53 @@ def damaged_cases(rng, w, out, full=True):
     for pos in out.seps:
         res.append(("separator", d[:pos] + [32] + d[pos + 1:]))
     return [("X %d %s" % (w, fmt_list(u)), tag) for tag, u in res]
+
+
+# ---------------------------------------------------------------------------
+# D92: a LONE high surrogate escape.  Before the repair UnEscape skipped the two units after it unread and took four
+# more as the low half, so with ordinary text behind the escape the closing quote of the string was swallowed and a
+# bracket inside a LATER string was taken as structure: a proper prefix of the text was accepted.  After the repair a
+# high surrogate escape that is not followed by backslash-u is refused, so these texts are outside the accepted
+# language: the text itself and every proper prefix must give Undefined.
+
+LONE_TAILS = asc("abcdefgh")
+LONE_STARTERS = [asc("]"), asc("}"), asc(","), asc(":"), asc("\\\""), asc("]}"), asc("}]"), asc("],"), asc("\\\"]"), asc("]\\\"")]
+
+
+def lone_surrogate_docs(rng, full=True):
+    """texts (ASCII, valid at every width) whose first string holds a lone high surrogate escape followed by 0..8
+    ordinary units, and whose later strings begin with a closing bracket, a separator or an escaped quote"""
+    docs = []
+    for k in range(9):
+        for st in LONE_STARTERS:
+            hi = rng.choice([0xD800, 0xD83D, 0xDBFF, rng.randrange(0xD800, 0xDC00)])
+            esc = [92, rng.choice([117, 85])] + hex4(hi, rng.randrange(16))
+            tail = LONE_TAILS[:k]
+            pre = asc(rng.choice(["", "x", "\\n"]))
+            s1 = [34] + pre + esc + tail + [34]
+            s2 = [34] + st + asc(rng.choice(["", "z", "12"])) + [34]
+            s3 = [34] + asc(rng.choice(["]", "}", "q"])) + [34]
+            shapes = [
+                [91] + s1 + [44] + s2 + [93],                                   # ["..",".."]
+                [91] + s1 + [44] + s2 + [44] + s3 + [93],                        # three strings
+                [123] + s1 + [58] + s2 + [125],                                  # the key holds it
+                [123] + asc("\"k\":") + s1 + [44] + s2 + [58] + s3 + [125],       # a member value holds it, the next key begins with the starter
+                [91, 91] + s1 + [93, 44] + s2 + [93],                            # nested
+                [91] + asc("1,") + s2 + [44] + s1 + [44] + s2 + [93],            # a harmless string first
+            ]
+            for d in (shapes if full else rng.sample(shapes, 2)):
+                docs.append(d)
+    return docs
+
+
+def lone_surrogate_cases(rng, widths, kind="X", full=True):
+    """the text and every proper prefix, at each of the given widths"""
+    res = []
+    for d in lone_surrogate_docs(rng, full):
+        for w in widths(rng):
+            for k in range(len(d) + 1):
+                res.append("%s %d %s" % (kind, w, fmt_list(d[:k])))
+    return res
 
 
 # ---------------------------------------------------------------------------
@@ -631,6 +678,7 @@ def run_check(prop, tier, gen, theorems_file, what, level_rule, extra=None):
         "the theorems are about coq/JsonModel.v; the C++ is tied by gen/Tables_json.v and by the differential run reported here (finite)",
         "the model describes /repo with the repairs %s applied (findings/*.patch)" % PATCHES,
         "character widths char, char16_t, char32_t, wchar_t on LP64 little-endian; lengths below 2^32",
+        "after D92 a high surrogate escape (\\uD800..\\uDBFF) must be followed by another \\u escape (whose value stays unchecked, as the repository's own suite pins): texts with an UNPAIRED high surrogate escape are outside the accepted language -- they and all their proper prefixes give Undefined (C07 run, kind lone_surrogate); RFC 8259 does not require a reader to accept them",
         "real numbers: kind and consumed text are proved (every RFC numeral, JsonDigitRfc/Big/Forms.v); the value of a real leaf is DEFINED as the bits DigitModel.string_to_number gives its text (accuracy is C09/C10/C11); that JsonModel.scan_number and DigitModel.string_to_number agree is compared on every numeral of the generated documents (C06 run), not proved; of the text RealToString emits only the alphabet is proved (JsonDigitAlpha.v), its order is a per-leaf boolean",
     ]
     return rep.finish()
